@@ -54,6 +54,9 @@ def exFloat : List T :=
    exRoot [exInner 1 [exTip "a" 1, exTip "b" 1], exTip "c" 1, exInner 1 [exTip "d" 1, exTip "e" 1]],
    exRoot [exInner 1 [exTip "a" 1, exTip "c" 1], exTip "b" 1, exInner 1 [exTip "d" 1, exTip "e" 1]]]
 
+/-- `((a:1,b:1):1,c:1,d:1);` -/
+def exNaN : T := exRoot [exInner 1 [exTip "a" 1, exTip "b" 1], exTip "c" 1, exTip "d" 1]
+
 theorem lengthsOK_whereDefined (ts : List T) (r : T) (h : C09S.lengthsOK ts r = true) :
     C09S.lengthsOKWhereDefined ts r = true := by
   unfold C09S.lengthsOKWhereDefined
@@ -61,5 +64,200 @@ theorem lengthsOK_whereDefined (ts : List T) (r : T) (h : C09S.lengthsOK ts r = 
   rw [List.all_eq_true] at h ⊢
   intro u hu
   rw [h u hu, Bool.or_true]
+
+/-! ## the float64 rounding of the driver does not cross the integers below 2^53 -/
+
+theorem rne_cases (s : Rat) : rne s = s.floor ∨ (rne s = s.floor + 1 ∧ (s.floor : Rat) < s) := by
+  unfold rne
+  by_cases h : (decide (s - (s.floor : Rat) > 1/2) || (s - (s.floor : Rat) == 1/2 && s.floor % 2 == 1)) = true
+  · right
+    simp only [h, if_true, true_and]
+    have : (0 : Rat) < s - (s.floor : Rat) := by
+      rw [Bool.or_eq_true] at h
+      rcases h with h1 | h1
+      · have := of_decide_eq_true h1; grind
+      · rw [Bool.and_eq_true] at h1
+        have := eq_of_beq h1.1; rw [this]; decide +kernel
+    grind
+  · left
+    simp only [h]
+    rfl
+
+/-- rounding half to even does not cross an integer: from below … -/
+theorem rne_ge (s : Rat) (K : Int) (h : (K : Rat) ≤ s) : K ≤ rne s := by
+  have h1 : K ≤ s.floor := Rat.le_floor_iff.2 h
+  rcases rne_cases s with e | ⟨e, _⟩ <;> omega
+
+/-- … and from above -/
+theorem rne_le (s : Rat) (K : Int) (h : s ≤ (K : Rat)) : rne s ≤ K := by
+  have hf : (s.floor : Rat) ≤ s := Rat.floor_le s
+  rcases rne_cases s with e | ⟨e, hlt⟩
+  · have : (s.floor : Rat) ≤ (K : Rat) := by grind
+    have := Rat.intCast_le_intCast.1 this
+    omega
+  · have : (s.floor : Rat) < (K : Rat) := by grind
+    have := Rat.intCast_lt_intCast.1 this
+    omega
+
+theorem two_pow_pos_rat (n : Nat) : (0 : Rat) < ((2 ^ n : Nat) : Rat) :=
+  Rat.natCast_pos.2 (Nat.two_pow_pos n)
+
+theorem roundAt_ge_nat (q : Rat) (e : Int) (k : Nat) (hk : k < 9007199254740992) (h : (k : Rat) ≤ q) :
+    (k : Rat) ≤ roundAt q e := by
+  unfold roundAt
+  by_cases he : e ≤ 0
+  · rw [if_pos he]
+    generalize (-e).toNat = n
+    have hQ := two_pow_pos_rat n
+    have h1 : (((k * 2 ^ n : Nat) : Int) : Rat) ≤ q * ((2 ^ n : Nat) : Rat) := by
+      rw [Rat.intCast_natCast, Rat.natCast_mul]
+      exact Rat.mul_le_mul_of_nonneg_right h (Rat.le_of_lt hQ)
+    have h2 := rne_ge _ _ h1
+    have h3 : (((k * 2 ^ n : Nat) : Int) : Rat) ≤ ((rne (q * ((2 ^ n : Nat) : Rat)) : Int) : Rat) :=
+      Rat.intCast_le_intCast.2 h2
+    rw [Rat.intCast_natCast, Rat.natCast_mul] at h3
+    apply Rat.not_lt.1
+    intro hlt
+    have := (Rat.div_lt_iff hQ).1 hlt
+    exact absurd h3 (Rat.not_le.2 this)
+  · rw [if_neg he]
+    by_cases hg : (4503599627370496 : Rat) ≤ q / ((2 ^ e.toNat : Nat) : Rat)
+    · rw [if_pos hg]
+      obtain ⟨m, hm⟩ : ∃ m, e.toNat = m + 1 := ⟨e.toNat - 1, by omega⟩
+      rw [hm] at hg ⊢
+      have hP : (2 : Rat) ≤ ((2 ^ (m + 1) : Nat) : Rat) := by
+        have : 2 ≤ 2 ^ (m + 1) := by
+          have := Nat.two_pow_pos m
+          rw [Nat.pow_succ]; omega
+        exact_mod_cast Rat.natCast_le_natCast.2 this
+      have hR : ((4503599627370496 : Int) : Rat) ≤ ((rne (q / ((2 ^ (m + 1) : Nat) : Rat)) : Int) : Rat) :=
+        Rat.intCast_le_intCast.2 (rne_ge _ 4503599627370496 (by rw [Rat.intCast_ofNat]; exact hg))
+      have hR0 : (0 : Rat) ≤ ((rne (q / ((2 ^ (m + 1) : Nat) : Rat)) : Int) : Rat) := by
+        have : (0 : Rat) ≤ ((4503599627370496 : Int) : Rat) := by decide +kernel
+        exact Rat.le_trans this hR
+      have s1 : ((4503599627370496 : Int) : Rat) * 2 ≤ ((rne (q / ((2 ^ (m + 1) : Nat) : Rat)) : Int) : Rat) * 2 :=
+        Rat.mul_le_mul_of_nonneg_right hR (by decide +kernel)
+      have s2 := Rat.mul_le_mul_of_nonneg_left hP hR0
+      have hk' : (k : Rat) < ((9007199254740992 : Nat) : Rat) := Rat.natCast_lt_natCast.2 hk
+      have e1 : ((4503599627370496 : Int) : Rat) * 2 = ((9007199254740992 : Nat) : Rat) := by decide +kernel
+      grind
+    · rw [if_neg hg]; exact h
+
+theorem roundAt_le_nat (q : Rat) (e : Int) (k : Nat) (hk : k < 9007199254740992) (h : q ≤ (k : Rat)) :
+    roundAt q e ≤ (k : Rat) := by
+  unfold roundAt
+  by_cases he : e ≤ 0
+  · rw [if_pos he]
+    generalize (-e).toNat = n
+    have hQ := two_pow_pos_rat n
+    have h1 : q * ((2 ^ n : Nat) : Rat) ≤ (((k * 2 ^ n : Nat) : Int) : Rat) := by
+      rw [Rat.intCast_natCast, Rat.natCast_mul]
+      exact Rat.mul_le_mul_of_nonneg_right h (Rat.le_of_lt hQ)
+    have h2 := rne_le _ _ h1
+    have h3 : ((rne (q * ((2 ^ n : Nat) : Rat)) : Int) : Rat) ≤ (((k * 2 ^ n : Nat) : Int) : Rat) :=
+      Rat.intCast_le_intCast.2 h2
+    rw [Rat.intCast_natCast, Rat.natCast_mul] at h3
+    apply Rat.not_lt.1
+    intro hlt
+    have := (Rat.lt_div_iff hQ).1 hlt
+    exact absurd h3 (Rat.not_le.2 this)
+  · rw [if_neg he]
+    by_cases hg : (4503599627370496 : Rat) ≤ q / ((2 ^ e.toNat : Nat) : Rat)
+    · exfalso
+      obtain ⟨m, hm⟩ : ∃ m, e.toNat = m + 1 := ⟨e.toNat - 1, by omega⟩
+      rw [hm] at hg
+      have hQ := two_pow_pos_rat (m + 1)
+      have hP : (2 : Rat) ≤ ((2 ^ (m + 1) : Nat) : Rat) := by
+        have : 2 ≤ 2 ^ (m + 1) := by
+          have := Nat.two_pow_pos m
+          rw [Nat.pow_succ]; omega
+        exact_mod_cast Rat.natCast_le_natCast.2 this
+      have h1 : ¬ q / ((2 ^ (m + 1) : Nat) : Rat) < 4503599627370496 := Rat.not_lt.2 hg
+      rw [Rat.div_lt_iff hQ] at h1
+      have h2 : (4503599627370496 : Rat) * 2 ≤ 4503599627370496 * ((2 ^ (m + 1) : Nat) : Rat) :=
+        Rat.mul_le_mul_of_nonneg_left hP (by decide +kernel)
+      have hk' : (k : Rat) < ((9007199254740992 : Nat) : Rat) := Rat.natCast_lt_natCast.2 hk
+      have e1 : (4503599627370496 : Rat) * 2 = ((9007199254740992 : Nat) : Rat) := by decide +kernel
+      grind
+    · rw [if_neg hg]; exact h
+
+/-- float64 rounding does not cross an integer below 2^53: from below … -/
+theorem roundF64_ge_nat (q : Rat) (k : Nat) (hk : k < 9007199254740992) (h : (k : Rat) ≤ q) :
+    (k : Rat) ≤ roundF64 q := by
+  unfold roundF64
+  by_cases hq : q ≤ 0
+  · rw [if_pos hq]; exact Rat.le_trans h hq
+  · rw [if_neg hq]; exact roundAt_ge_nat q _ k hk h
+
+/-- … and from above -/
+theorem roundF64_le_nat (q : Rat) (k : Nat) (hk : k < 9007199254740992) (h : q ≤ (k : Rat)) :
+    roundF64 q ≤ (k : Rat) := by
+  unfold roundF64
+  by_cases hq : q ≤ 0
+  · rw [if_pos hq]; exact_mod_cast Rat.natCast_nonneg
+  · rw [if_neg hq]; exact roundAt_le_nat q _ k hk h
+
+/-- `fmaCutG_eq_floorCut` with the two facts about the rounding it really uses: at the product `c·n`
+    the rounding does not cross the integers `⌊c·n⌋` (from below) and `⌊c·n⌋ + 1` (from above). -/
+theorem fmaCutG_eq_floorCut_of (rnd : Rat → Rat) (c : Rat) (n : Nat) (hc : 0 ≤ c)
+    (h1 : (floorCut c n : Rat) ≤ c * (n : Rat) → (floorCut c n : Rat) ≤ rnd (c * (n : Rat)))
+    (h2 : c * (n : Rat) ≤ ((floorCut c n + 1 : Nat) : Rat) → rnd (c * (n : Rat)) ≤ ((floorCut c n + 1 : Nat) : Rat)) :
+    fmaCutG rnd c n = floorCut c n := by
+  unfold fmaCutG floatCutG
+  unfold floorCut at *
+  generalize hq : c * (n : Rat) = q at *
+  have h0 : (0 : Rat) ≤ q := by rw [← hq]; exact Rat.mul_nonneg hc (by exact_mod_cast Nat.zero_le n)
+  have hF0 : 0 ≤ q.floor := Rat.le_floor_iff.2 (by simpa using h0)
+  have hFq : ((q.floor : Int) : Rat) ≤ q := Rat.le_floor_iff.1 (Int.le_refl _)
+  have hqF : q < ((q.floor + 1 : Int) : Rat) := Rat.floor_lt_iff.1 (by omega)
+  have hnat : ((q.floor.toNat : Nat) : Int) = q.floor := Int.toNat_of_nonneg hF0
+  have hcastF : ((q.floor.toNat : Nat) : Rat) = ((q.floor : Int) : Rat) := by
+    rw [← Rat.intCast_natCast, hnat]
+  have hcastF1 : ((q.floor.toNat + 1 : Nat) : Rat) = ((q.floor + 1 : Int) : Rat) := by
+    rw [← Rat.intCast_natCast]; congr 1; omega
+  rw [hcastF] at h1
+  rw [hcastF1] at h2
+  have h1' := h1 hFq
+  have h2' := h2 (Rat.le_of_lt hqF)
+  have hlo : q.floor ≤ (rnd q).floor := Rat.le_floor_iff.2 h1'
+  have hhi : (rnd q).floor ≤ q.floor + 1 := by
+    have : (rnd q).floor < q.floor + 2 := by
+      apply Rat.floor_lt_iff.2
+      have : ((q.floor + 1 : Int) : Rat) < ((q.floor + 2 : Int) : Rat) := Rat.intCast_lt_intCast.2 (by omega)
+      grind
+    omega
+  have hM0 : 0 ≤ (rnd q).floor := by omega
+  have hcast : (((rnd q).floor.toNat : Nat) : Rat) = (((rnd q).floor : Int) : Rat) := by
+    rw [← Rat.intCast_natCast, Int.toNat_of_nonneg hM0]
+  show (if q - (((rnd q).floor.toNat : Nat) : Rat) < 0 then (rnd q).floor.toNat - 1 else (rnd q).floor.toNat) = q.floor.toNat
+  rw [hcast]
+  by_cases hcase : (rnd q).floor = q.floor
+  · rw [hcase]
+    have : ¬ (q - ((q.floor : Int) : Rat) < 0) := by grind
+    rw [if_neg this]
+  · have hM : (rnd q).floor = q.floor + 1 := by omega
+    rw [hM]
+    have : q - ((q.floor + 1 : Int) : Rat) < 0 := by grind
+    rw [if_pos this]
+    omega
+
+theorem floorCut_le (c : Rat) (n : Nat) (hc0 : 0 ≤ c) (hc1 : c ≤ 1) : floorCut c n ≤ n := by
+  have : ¬ (n < floorCut c n) := by
+    intro h
+    have : ¬ (c * (n : Rat) < (floorCut c n : Rat)) := fun hh =>
+      Nat.lt_irrefl _ ((floorCut_lt_iff c n (floorCut c n) hc0).2 hh)
+    have h2 : (n : Rat) < (floorCut c n : Rat) := Rat.natCast_lt_natCast.2 h
+    have h3 : c * (n : Rat) ≤ 1 * (n : Rat) := Rat.mul_le_mul_of_nonneg_right hc1 (by exact_mod_cast Nat.zero_le n)
+    grind
+  omega
+
+/-- The cut of the code as it is (`cutNow = fmaCut`: float64 product rounded to nearest-even by
+    `roundF64`, truncated, corrected with the exact sign of `c·n - m`) is the exact `⌊c·n⌋` for
+    every threshold in `[0, 1]` and fewer than 2^52 trees. -/
+theorem fmaCut_eq_floorCut (c : Rat) (n : Nat) (hc0 : 0 ≤ c) (hc1 : c ≤ 1) (hn : n < 4503599627370496) :
+    fmaCut c n = floorCut c n := by
+  have hle := floorCut_le c n hc0 hc1
+  exact fmaCutG_eq_floorCut_of roundF64 c n hc0
+    (roundF64_ge_nat _ _ (by omega)) (roundF64_le_nat _ _ (by omega))
 
 end Gotree.C09
